@@ -908,7 +908,7 @@ func buildIntrinsics() map[string]*Native {
 		re, _ := a[0].(Opaque).V.(*regexp.Regexp)
 		s, ok := goStr(a[1])
 		n := ip.term(a[2])
-		if !ok || !n.IsConst() || re == nil {
+		if !ok || !n.IsConst() || re == nil || ip.W.ex.Cfg.Params["STUBREGEX"] == 1 {
 			return ip.regexpMatchesStub(a[0].(Opaque), a[1].(Str), n)
 		}
 		r := re.FindAllStringSubmatchIndex(s, int(n.Int()))
